@@ -68,6 +68,7 @@ def run_history(rep, case):
             return labtech.Lab(storage=make_storage(skind, store), runner_backend=backend, max_workers=case.get('max_workers'),
                                context={})
         lab = mklab()
+        inspect = make_storage('local' if skind == 'pathstr' else skind, store)
         persists = skind != 'null'
         cache = {}
         gen = 0
@@ -90,6 +91,10 @@ def run_history(rep, case):
                 return
             rep.count('cached_tasks_checks')
             want = sorted(keyof[n] for n in cache)
+            if inspect is not None:
+                raw = sorted(inspect.find_keys())
+                if raw != want:
+                    bad.append(('storage-keys-differ', f'after {after}: storage holds keys {raw}, model {want}'))
             if keys != want:
                 bad.append(('cached_tasks-keyset-differs', f'after {after}: cached_tasks keys {keys} != model {want}'))
 
